@@ -368,7 +368,13 @@ def run_check(prop, tier, vseed, nruns=None, workers=None, write_evidence=True, 
             agg["nviol"] += a["nviol"]
             agg["errors"] += a["errors"]
             agg["samples"] += a["samples"]
+    procs = list((getattr(ex, "_processes", None) or {}).values())
     ex.shutdown(wait=False, cancel_futures=True)
+    for p in procs:                                   # every result is in: the workers are not needed any more
+        try:
+            p.terminate()
+        except Exception:
+            pass
     if agg["n"] == 0 and not harness_err:
         harness_err.append("no run completed")
     for e in agg["errors"][:5]:
